@@ -39,6 +39,9 @@ class StreamHooks(AwsHooks):
             num.__dict__.setdefault("loader_calls", []).append((e, st.copy(), args[0] if args else None))
             rng = LOADER_RANGE.get(c)
             t = num.ty(e)
+            if c == "_cbor_load_uint8" and args and args[0] is not None:
+                # one byte: the byte itself (the same cell the switch on the initial byte read)
+                return num.cell_read(st, args[0], 1, t)
             if rng:
                 return Poly.atom(num.fresh(st, c.replace("_cbor_", ""), t, rng))
             return None
@@ -46,6 +49,7 @@ class StreamHooks(AwsHooks):
             via = RU.indirect_via(num.fn, e)
             if via and via[0] == "cbor_callbacks":
                 num.__dict__.setdefault("cb_calls", []).append((e, st.copy(), via[1]))
+                num.__dict__.setdefault("cb_args", {})[id(num.__dict__["cb_calls"][-1])] = args[1] if len(args) > 1 else None
                 if via[1] in DATA_CALLBACKS:
                     num.__dict__.setdefault("data_calls", []).append((e, st.copy(), args[1] if len(args) > 1 else None, args[2] if len(args) > 2 else None))
                 return None  # callbacks receive values, never a pointer to the decoder's locals
@@ -245,6 +249,21 @@ def dispatch(R, P):
         seen.add(K)
         if name not in expected_callbacks(K):
             bad.append("initial byte 0x%02X (major type %d, additional information %d) is reported through callbacks->%s at line %d, expected %s" % (K, K >> 5, K & 31, name, e.get("loc", [0])[0], sorted(expected_callbacks(K)) or "no callback"))
+    # embedded values: for additional information 0..23 of the major types 0..6 the value reported (integer, length, count,
+    # tag number) is the additional information itself: initial byte minus the first byte of its group
+    bade, ne = [], 0
+    for rec_ in getattr(num, "cb_calls", []):
+        e, st, name = rec_
+        K = _case_of(st)
+        if K is None or (K & 31) >= 24 or (K >> 5) == 7 or name in DATA_CALLBACKS:
+            continue
+        a1 = getattr(num, "cb_args", {}).get(id(rec_))
+        ne += 1
+        want = Poly.const(K & 31)
+        if a1 is None or not (entails(st, a1 - want) and entails(st, want - a1)):
+            bade.append("initial byte 0x%02X reports %r through callbacks->%s (line %d), its embedded value is %d" % (K, a1, name, e.get("loc", [0])[0], K & 31))
+    R.check(not bade and ne >= 100, "STREAM", "dispatch:embedded-value-is-the-additional-information", "%s in cbor_stream_decode()" % STREAM, "%d embedded-value initial bytes report byte - group base" % ne,
+            "an embedded value (integer / count / tag below 24) is reported wrong: %s" % "; ".join(bade[:3]))
     R.check(not bad and len(seen) >= 200, "STREAM", "dispatch:callback-matches-initial-byte", "%s in cbor_stream_decode()" % STREAM, "%d initial bytes each report through the callback of their major type and width" % len(seen),
             "the decoder reports an item as another kind than its initial byte says: %s" % "; ".join(bad[:3]))
     # ... and every item that is complete is reported: between the case label and the callback stands only the test that
@@ -331,6 +350,7 @@ def stream_bounds(R, P):
 
 
 MUTANTS = [
+    {"name": "embedded-array-count-masked-with-15", "file": STREAM, "expect": "STREAM", "old": "            context, _cbor_load_uint8(source) - 0x80); /* 0x40 offset */", "new": "            context, _cbor_load_uint8(source) & 0x0F); /* 0x40 offset */"},
     {"name": "empty-strings-not-reported", "file": STREAM, "expect": "STREAM", "old": "    if (claim_bytes(length, source_size, &result)) {                       \\\n      callbacks->callback_name(context, source + 1 + source_extra_offset,  \\", "new": "    if ((length) > 0 && claim_bytes(length, source_size, &result)) {       \\\n      callbacks->callback_name(context, source + 1 + source_extra_offset,  \\"},
     {"name": "two-byte-text-reported-as-bytes", "file": STREAM, "expect": "STREAM", "old": "      READ_CLAIM_INVOKE(string, _cbor_load_uint16, 2);", "new": "      READ_CLAIM_INVOKE(byte_string, _cbor_load_uint16, 2);"},
     {"name": "uint64-loader-swaps-two-bytes", "file": LOADERS, "expect": "STREAM", "old": "         ((uint32_t) * (source + 5) << 0x10) +\n         ((uint16_t) * (source + 6) << 0x08) + (uint8_t) * (source + 7);", "new": "         ((uint32_t) * (source + 6) << 0x10) +\n         ((uint16_t) * (source + 5) << 0x08) + (uint8_t) * (source + 7);"},
